@@ -60,9 +60,9 @@ def descs(tier):
         for edges in simple_graphs(n):
             for acyclic in (False, True):
                 for prim in (False, True):
-                    forms = ["vars"] if n == nmax and tier != "quick" else ["vars", "neg", "xor2", "const", "cmp", "ncmp"]
+                    forms = ["vars"] if n == nmax and tier != "quick" else ["vars", "neg", "xor2", "const", "cmp", "ncmp", "tied"]
                     if tier == "quick" and n == nmax:
-                        forms = ["vars", "neg", "cmp"]
+                        forms = ["vars", "neg", "cmp", "tied"]
                     for form in forms:
                         yield dict(func="active_vertices_connected", n=n, edges=[list(e) for e in edges],
                                    acyclic=acyclic, prim=prim, form=form)
